@@ -13,14 +13,7 @@ def run_groups(names, tier, known_by_group=None, log=None, cache=True):
         for t in g.tasks(tier):
             work.append((n, t, tuple(known_by_group.get(n, ()))))
     pool = solve.pool()
-    # lambdas (known-finding predicates) do not pickle: groups that carry them are generated in threads of this process
-    local = [w for w in work if w[2]]
-    remote = [w for w in work if not w[2]]
-    from concurrent.futures import ThreadPoolExecutor
-    with ThreadPoolExecutor(max_workers=8) as ex:
-        futs = [ex.submit(gen_worker, w) for w in local]
-        gens = list(pool.imap_unordered(gen_worker, remote, chunksize=1))
-        gens += [f.result() for f in futs]
+    gens = list(pool.imap_unordered(gen_worker, work, chunksize=1))
     t_gen = time.time() - t0
     jobs = []
     out = {n: dict(group=n, tasks=[], jobs=0, obligations=0, discharged=0, failed=[], errors=[], undecided=False,
